@@ -357,6 +357,24 @@ static int run_sizes(uint64_t seed) {
       }
     }
   }
+  // highly repetitive connectivity: many faces over very few points (compresses to far less than 3 bytes per face)
+  for (int nf : {50, 400, 3000}) {
+    for (int method = 0; method < 2; ++method) {
+      Geom g;
+      g.is_mesh = true;
+      g.pc.reset(new Mesh());
+      const int np = 4;
+      g.pc->set_num_points(np);
+      AttDesc p{GeometryAttribute::POSITION, DT_INT32, 3, false, true, np};
+      const int pid = add_attribute(g.pc.get(), p, np);
+      for (int i = 0; i < np; ++i) { int32_t xyz[3] = {i, i * i, 7 - i}; g.pc->attribute(pid)->SetAttributeValue(AttributeValueIndex(i), xyz); }
+      for (int f = 0; f < nf; ++f) { Mesh::Face fc; fc[0] = PointIndex(0); fc[1] = PointIndex(1); fc[2] = PointIndex(2 + (f % 2)); g.mesh()->AddFace(fc); }
+      g.shape = "repetitive";
+      Opt o;
+      o.method = method; o.es = o.ds = 5; o.qbits.assign(1, 0);
+      run_case(g, o, true, 120);
+    }
+  }
   fprintf(stderr, "STATS cases=%lld emitted=%lld encfail=%lld\n", n_cases, n_emit, n_enc_fail);
   return 0;
 }
